@@ -4,16 +4,20 @@ package c01
 import (
 	"bytes"
 	"fmt"
+	"os"
 	"sync"
 	"testing"
 	"time"
 
+	"github.com/uhppoted/uhppote-core/types"
+	"github.com/uhppoted/uhppote-core/uhppote"
 	"pgregory.net/rapid"
 
 	"verif/harness/api"
 	"verif/harness/ev"
 	"verif/harness/gen"
 	"verif/harness/hook"
+	"verif/harness/memdrv"
 	"verif/harness/rp"
 	"verif/harness/spec"
 	"verif/harness/zones"
@@ -28,9 +32,12 @@ func TestMain(m *testing.M) {
 }
 
 type step struct {
-	Client int      `json:"client"`
-	Case   api.Case `json:"case"`
-	Reply  int      `json:"reply"` // 0 valid all-zero reply, 1 no reply (timeout), 2 valid reply with 0xff noise payload, 3 mirror (below)
+	Client int `json:"client"`
+	// Event, when set, is not a call: the datagram is delivered to the client's event listener (histories with Listen) -
+	// what the listener hears must not influence any later request
+	Event []byte   `json:"event,omitempty"`
+	Case  api.Case `json:"case"`
+	Reply int      `json:"reply"` // 0 valid all-zero reply, 1 no reply (timeout), 2 valid reply with 0xff noise payload, 3 mirror (below)
 }
 
 // read-modify-write: the application reads a record and writes the same record back. Reply kind 3 makes the reply to a 'get'
@@ -59,7 +66,15 @@ type history struct {
 	Cfg   [2]hook.ClientCfg `json:"cfg"`
 	Steps []step            `json:"steps"`
 	Zone  string            `json:"zone,omitempty"` // process-local zone while the history runs ("" = UTC)
+	// Listen: both clients run their event listener for the whole history
+	Listen bool `json:"listen,omitempty"`
 }
+
+type nullListener struct{}
+
+func (nullListener) OnConnected()           {}
+func (nullListener) OnEvent(*types.Status)  {}
+func (nullListener) OnError(err error) bool { return true }
 
 func genCfg(t *rapid.T, serials []uint32) hook.ClientCfg {
 	c := hook.ClientCfg{HasBroadcast: rapid.Bool().Draw(t, "has_broadcast"), BroadcastIP: [4]byte{192, 168, 1, 255}, BroadcastPort: 60005, Debug: gen.Debug(t, "debug")}
@@ -80,7 +95,7 @@ func genCfg(t *rapid.T, serials []uint32) hook.ClientCfg {
 
 func genHistory(t *rapid.T) history {
 	n := rapid.IntRange(1, 40).Draw(t, "steps")
-	h := history{}
+	h := history{Listen: rapid.IntRange(0, 3).Draw(t, "listen") == 0}
 	var serials []uint32
 	for i := 0; i < n; i++ {
 		op := gen.Op(t, true)
@@ -93,6 +108,15 @@ func genHistory(t *rapid.T) history {
 			serials = append(serials, cs.Call.Serial)
 		}
 		client := rapid.IntRange(0, 1).Draw(t, "client")
+		if h.Listen && len(serials) > 0 && rapid.IntRange(0, 3).Draw(t, "event") == 0 {
+			// an event from one of the controllers in play (or a stranger), old or v6.62 firmware, now and then malformed
+			serial := serials[rapid.IntRange(0, len(serials)-1).Draw(t, "event.serial")]
+			if rapid.IntRange(0, 5).Draw(t, "event.stranger") == 0 {
+				serial = gen.Serial(t)
+			}
+			e := gen.Payload(t, spec.EventLayout, rapid.SampledFrom([]byte{0x17, 0x19, 0x19}).Draw(t, "event.som"), serial, rapid.IntRange(0, 6).Draw(t, "event.bad")/6, false)
+			h.Steps = append(h.Steps, step{Client: client, Event: e})
+		}
 		if getOp, ok := mirrorOf[op]; ok && rapid.IntRange(0, 2).Draw(t, "read.first") == 0 {
 			get := gen.Call(t, getOp)
 			get.Call.Serial, get.Call.Card, get.Call.Profile, get.Call.Door = cs.Call.Serial, cs.Call.Card, cs.Call.Profile, cs.Call.Door
@@ -179,9 +203,56 @@ func checkHistory(h history) (f *rp.Fail) {
 }
 
 func checkHistoryZ(h history) *rp.Fail {
-	ua, da := hook.Mem(h.Cfg[0])
-	ub, db := hook.Mem(h.Cfg[1])
+	ca, cb := h.Cfg[0], h.Cfg[1]
+	if h.Listen {
+		ca.HasListen, ca.ListenIP, ca.ListenPort = true, [4]byte{127, 0, 0, 1}, 60001
+		cb.HasListen, cb.ListenIP, cb.ListenPort = true, [4]byte{127, 0, 0, 1}, 60002
+	}
+	ua, da := hook.Mem(ca)
+	ub, db := hook.Mem(cb)
+	if h.Listen {
+		for _, x := range []struct {
+			u uhppote.IUHPPOTE
+			d *memdrv.Driver
+		}{{ua, da}, {ub, db}} {
+			q := make(chan os.Signal)
+			done := make(chan struct{})
+			go func() {
+				defer close(done)
+				defer func() { recover() }()
+				x.u.Listen(nullListener{}, q)
+			}()
+			defer func() { close(q); <-done }()
+			ready := false
+			for k := 0; k < 20000 && !ready; k++ {
+				func() {
+					defer func() {
+						if recover() != nil {
+							time.Sleep(20 * time.Microsecond)
+						}
+					}()
+					x.d.Push(nil)
+					ready = true
+				}()
+			}
+		}
+		ev.Class("history/with-running-listeners", 1)
+	}
 	for i, s := range h.Steps {
+		if s.Event != nil {
+			if h.Listen {
+				d := da
+				if s.Client == 1 {
+					d = db
+				}
+				func() {
+					defer func() { recover() }()
+					d.Push(s.Event)
+				}()
+				ev.Class("history/event-heard-by-the-listener", 1)
+			}
+			continue
+		}
 		u, d := ua, da
 		if s.Client == 1 {
 			u, d = ub, db
@@ -424,5 +495,14 @@ func TestAAAColdStart(t *testing.T) {
 	}
 }
 
-func TestC01(t *testing.T)    { rp.RunAll(t, props()...) }
+func TestC01(t *testing.T) {
+	var idle *idleRun
+	if !ev.Replaying() && ev.Shard() == 0 {
+		idle = startIdle()
+	}
+	rp.RunAll(t, props()...)
+	if idle != nil {
+		finishIdle(t, idle)
+	}
+}
 func TestReplay(t *testing.T) { rp.ReplayAll(t, props()...) }
